@@ -175,6 +175,7 @@ std::size_t arena::occupy_free_slot(thread_data& tls) {
             return out_of_arena;
     }
 
+    __TBB_VERIF_POINT(vp_arena_occupy_slot, this, index);
     atomic_update( my_limit, (unsigned)(index + 1), std::less<unsigned>() );
     return index;
 }
@@ -365,11 +366,13 @@ bool arena::has_tasks() {
 }
 
 void arena::out_of_work() {
+    __TBB_VERIF_POINT(vp_arena_out_of_work, this, 0);
     // We should try unset my_pool_state first due to keep arena invariants in consistent state
     // Otherwise, we might have my_pool_state = false and my_mandatory_concurrency = true that is broken invariant
     bool disable_mandatory = my_mandatory_concurrency.try_clear_if([this] { return !has_enqueued_tasks(); });
     bool release_workers = my_pool_state.try_clear_if([this] { return !has_tasks(); });
 
+    __TBB_VERIF_POINT(vp_arena_out_of_work, this, 1 + (disable_mandatory ? 1 : 0) + (release_workers ? 2 : 0));
     if (disable_mandatory || release_workers) {
         int mandatory_delta = disable_mandatory ? -1 : 0;
         int workers_delta = release_workers ? -(int)my_max_num_workers : 0;
@@ -439,6 +442,7 @@ void arena::enqueue_task(d1::task& t, d1::task_group_context& ctx, thread_data& 
     task_group_context_impl::bind_to(ctx, &td);
     task_accessor::context(t) = &ctx;
     task_accessor::isolation(t) = no_isolation;
+    __TBB_VERIF_POINT(vp_arena_enqueue, this, 0);
     my_fifo_task_stream.push( &t, random_lane_selector(td.my_random) );
     advertise_new_work<work_enqueued>();
 }
@@ -696,6 +700,7 @@ public:
 
             td.leave_task_dispatcher();
             td.my_arena_slot->release();
+            __TBB_VERIF_POINT(vp_arena_release_slot, td.my_arena, 1);
             td.my_arena->my_exit_monitors.notify_one(); // do not relax!
             td.my_is_registered = m_orig_is_thread_registered;
             td.attach_arena(*m_orig_arena, m_orig_slot_index);
@@ -779,6 +784,7 @@ void task_arena_impl::execute(d1::task_arena_base& ta, d1::delegate_base& d) {
 
             delegated_task dt(d, a->my_exit_monitors, wo);
             a->enqueue_task( dt, exec_context, *td);
+            __TBB_VERIF_POINT(vp_arena_execute_delegate, a, 0);
             size_t index2 = arena::out_of_arena;
             do {
                 a->my_exit_monitors.prepare_wait(waiter);
@@ -786,6 +792,7 @@ void task_arena_impl::execute(d1::task_arena_base& ta, d1::delegate_base& d) {
                     a->my_exit_monitors.cancel_wait(waiter);
                     break;
                 }
+                __TBB_VERIF_POINT(vp_arena_execute_wait, a, 0);
                 index2 = a->occupy_free_slot</*as_worker*/false>(*td);
                 if (index2 != arena::out_of_arena) {
                     a->my_exit_monitors.cancel_wait(waiter);
@@ -794,6 +801,7 @@ void task_arena_impl::execute(d1::task_arena_base& ta, d1::delegate_base& d) {
                     __TBB_ASSERT(!exec_context.my_exception.load(std::memory_order_relaxed), nullptr); // exception can be thrown above, not deferred
                     break;
                 }
+                __TBB_VERIF_POINT(vp_arena_execute_wait, a, 1);
                 a->my_exit_monitors.commit_wait(waiter);
             } while (wo.continue_execution());
             if (index2 == arena::out_of_arena) {
